@@ -7,6 +7,7 @@ import GV.Model.PreserveTypes
     enc <kind> <era> <desc> <hex> \t <impl>   re-serialisation of unmodified decoded objects
     tx  <era> <desc> <hex> \t <impl>    standalone transaction (NewTransactionFromCbor)
     hdr <era> <desc> <hex> \t <impl>    standalone block header (NewBlockHeaderFromCbor)
+    body <era> <desc> <hex> \t <impl>   standalone transaction body (NewTransactionBodyFromCbor)
 -/
 namespace GV.Drv.C01
 open GV.Line GV.Cbor GV.Model.Offsets GV.Model.OffsetsTruth GV.Model.StoreCbor
@@ -95,6 +96,15 @@ def handle (line : String) : Out :=
       | some b =>
         let m := match txLoc era b with
           | some l => s!"dec=ok tx=0+{b.length}" ++ fmtLoc l ++ " h=ok enc=ok"
+          | none => "model-error"
+        { model := m, spec := if m = "model-error" then "*" else m }
+    | ["body", _, _, hex] =>
+      if impl = "dec=err" then { model := "dec=err", spec := "*" } else
+      match parseHex? hex with
+      | none => badOp
+      | some b =>
+        let m := match outputsOf b (0, b.length) with
+          | some outs => s!"dec=ok body=0+{b.length} O" ++ ",".intercalate (outs.map fmtRange) ++ " h=ok"
           | none => "model-error"
         { model := m, spec := if m = "model-error" then "*" else m }
     | ["hdr", _, _, hex] =>
